@@ -283,22 +283,27 @@ def run_cases(cases, wdir, tagname):
     hung = []
     limit = int(os.environ.get("VERIF_RUN_TIMEOUT", "300" if not tagname.startswith("round") and tagname != "edge" else "900"))
     for attempt in range(4):
+        why = None
         try:
             r = sh([HBIN, "run", cases, impl, orac, meta], timeout=limit, stdout=subprocess.DEVNULL)
-            break
+            if r.returncode == 0: break
+            # the harness process died (abort: stack overflow, allocation failure, a double panic ...; exit code 2 is the
+            # harness' own usage / parse error and stays an error of the machinery)
+            if r.returncode == 2:
+                print("ERROR: harness run failed (rc=2)"); sys.exit(2)
+            why = f"ABORTED the harness process (exit status {r.returncode}) while executing this input"
         except subprocess.TimeoutExpired:
-            try: last = open(impl + ".progress").read().split()[-1]
-            except Exception: last = None
-            if last is None or attempt == 3:
-                print("ERROR: harness run timed out and the running case could not be identified"); sys.exit(2)
-            keep = []; seen = False
-            for line in open(cases):
-                if line.split(" ", 1)[0] == last: hung.append(line.rstrip("\n")); seen = True
-                elif attempt == 2 and seen: pass    # third hang: the rest of the stream is given up (there is enough to report)
-                else: keep.append(line)
-            with open(cases, "w") as f: f.writelines(keep)
-    if r.returncode != 0:
-        print("ERROR: harness run failed (rc=%s)" % r.returncode); sys.exit(2)
+            why = f"did not return within {limit} s on this input (the harness was killed while executing it)"
+        try: last = open(impl + ".progress").read().split()[-1]
+        except Exception: last = None
+        if last is None or attempt == 3:
+            print("ERROR: harness run failed and the running case could not be identified"); sys.exit(2)
+        keep = []; seen = False
+        for line in open(cases):
+            if line.split(" ", 1)[0] == last: hung.append("# the implementation " + why + "\n" + line.rstrip("\n")); seen = True
+            elif attempt == 2 and seen: pass    # third failure: the rest of the stream is given up (there is enough to report)
+            else: keep.append(line)
+        with open(cases, "w") as f: f.writelines(keep)
     t1 = time.time()
     with open(cases) as fin, open(model, "w") as fout:
         r = subprocess.run([MBIN], stdin=fin, stdout=fout, stderr=subprocess.PIPE, env=ENV, timeout=7200)
@@ -474,7 +479,7 @@ def check(prop, tier, seed):
         os.makedirs(os.path.join(ROOT, "replays"), exist_ok=True)
         path = os.path.join(ROOT, "replays", f"{prop}-nontermination-{int(time.time())}.replay")
         with open(path, "w") as f:
-            f.write(f"# property {prop}; kind: nontermination\n# the implementation did not return within {st.get('run_timeout')} s on this input (the harness was killed while executing it)\n# replay with: python3 verif.py replay <this file>\n")
+            f.write(f"# property {prop}; kind: nontermination / process abort\n# replay with: python3 verif.py replay <this file>\n")
             for l in hung_lines: f.write(l + "\n")
         violations.append(f"VIOLATION property={prop} replay={path}")
     if unknown:
@@ -577,7 +582,8 @@ def replay(path):
         print(f"{k}\n  request: {st['cases'][k][:400]}\n  impl   : {(st['impl'].get(k) or '')[:400]}\n  model  : {(st['model'].get(k) or '')[:400]}\n  oracle : {st['oracle'].get(k)}\n  impl==model: {same}")
         if not same or st["oracle"].get(k, "").startswith("FAIL"): bad += 1
     for l in st.get("hung", []):
-        print(f"{l.split(' ', 1)[0]}\n  request: {l[:400]}\n  impl   : DID NOT RETURN within {st.get('run_timeout')} s (killed)")
+        why, _, req = l.partition("\n")
+        print(f"{req.split(' ', 1)[0]}\n  request: {req[:400]}\n  impl   : {why[2:]}")
         bad += 1
     if not st["order"] and not st.get("hung"):
         print(open(path).read())
